@@ -1,15 +1,43 @@
-"""C15 - framing round-trips under any re-chunking (rxsci/framing/line.py, length_prefix.py)."""
+"""C15 - framing round-trips under any re-chunking (rxsci/framing/line.py, length_prefix.py).
+
+Kinds of cases
+  line / lp  one framed stream (items, trailing unterminated line / incomplete trailing frame, a chunking of the
+             stream) through a fresh unframe(); the items through a fresh frame().  Model-free oracle (round trip)
+             and per-chunk comparison with the Coq model.  items None = malformed stream, model comparison only.
+  resub      RE-SUBSCRIPTION: one operator / one piped observable (source.pipe(unframe()), also frame()) is built
+             ONCE and subscribed two or three times, every subscription with its own items and its own chunking -
+             one lifetime after the other, or two / three alive at once (chunks alternating or randomly
+             interleaved; on one hot Subject: the same chunks to everyone alive).  Earlier subscriptions ran to
+             completion, were disposed after k chunks or were ended by on_error from the source after k chunks
+             (k anywhere, also inside a line / prefix / payload).  Sources: rx.defer (a Subject per subscription),
+             one hot Subject, rx.create emitting synchronously inside subscribe() (what retry / repeat over a
+             cold source do).  Every subscription is a stream in its own right: driven to completion it must
+             deliver exactly ITS items (as a fresh unframe would), cut short a prefix of ITS items, never anything
+             of another subscription.  The chunks and per-chunk outputs of one completed subscription go through
+             the Coq model like a plain case.
+"""
 import itertools
+import random
 from harness import core
 from harness.rxutil import run_timed
 from harness.core import c_list, c_zlist, c_nlist, c_nat, c_bool
 
 PID = 'C15'
 RULE = ('cases: (items, tail/partial, chunking) with chunk cuts anywhere incl. empty chunks and cuts inside a '
-        'prefix/payload; plus a malformed stream of arbitrary chunks (model comparison only). non-trivial = at '
-        'least 2 items and at least one cut strictly inside an item or prefix; distinct = distinct case JSON')
+        'prefix/payload; plus a malformed stream of arbitrary chunks (model comparison only); plus re-subscription '
+        'cases: one unframe()/frame() operator or one piped observable built once and subscribed 2-3 times, each '
+        'subscription with its own items and chunking, lifetimes sequential / alternating / randomly interleaved, '
+        'earlier lifetimes completed, disposed after k chunks or ended by a source error after k chunks, sources '
+        'rx.defer / one hot Subject / synchronous rx.create; exhaustive small scope: framing x sharing x source x '
+        'order x fate of the first subscription at every k of a fixed chunking and after the first chunk of every '
+        '1-cut chunking, every pair of 1-cut chunkings for two alternating subscriptions. non-trivial = at '
+        'least 2 items and at least one cut strictly inside an item or prefix, or a re-subscription case whose '
+        'later subscription runs to completion on >= 1 item in >= 2 chunks; distinct = distinct case JSON')
 TRUSTED = ['modelled not verified: Python str.split/join, int.to_bytes/from_bytes, io.BytesIO, RxPY Subject '
-           'synchronous delivery']
+           'synchronous delivery',
+           'not modelled: that every subscription of one unframe() operator / piped observable has a carry-over '
+           'buffer of its own (the Coq model is a function of ONE chunk list); tested by the re-subscription '
+           'cases (model-free oracle per subscription), not proved']
 ASSUMPTIONS = ['items contain no newline (line) / are shorter than 256^p bytes (length prefix)']
 SHARD = 400
 COQ_TARGETS = ['theories/Framing/C15Corr.vo']
@@ -42,9 +70,9 @@ def gen_line(rng, big=False):
     return {'kind': 'line', 'items': items, 'tail': tail, 'chunks': chunks}
 
 
-def gen_lp(rng, big=False):
-    p = rng.choice([1, 2, 4, 8])
-    order = rng.choice(['little', 'big'])
+def gen_lp(rng, big=False, p=None, order=None):
+    p = p or rng.choice([1, 2, 4, 8])
+    order = order or rng.choice(['little', 'big'])
     n = rng.choice([0, 1, 2, 3, 5])
     items = []
     for _ in range(n):
@@ -102,6 +130,164 @@ def exhaustive_cuts(rng, ncuts):
     return out
 
 
+# ---- re-subscription of ONE operator / ONE piped observable ---------------------------------------------
+# case = {'kind': 'resub', 'framing': 'line'|'lp', 'p', 'order', 'side': 'u' (unframe is the shared operator,
+#         inputs = chunks) | 'f' (frame is the shared operator, inputs = items), 'share': 'observable'
+#         (source.pipe(op) built once, subscribed several times) | 'operator' (op built once, applied to a source
+#         per subscription), 'source': 'defer' (rx.defer: a Subject of its own per subscription) | 'hot' (one
+#         Subject for all subscriptions) | 'cold' (rx.create: emits synchronously inside subscribe()),
+#         'sched': 'seq' (one lifetime after the other) | 'alt' (alive at once, actions strictly alternating) |
+#         'inter' (alive at once, random merge drawn from 'iseed'), 'iseed',
+#         'subs': [{'items', 'tail' | 'partial', 'chunks', 'fate': 'full' | 'dispose' | 'error', 'k'}]}
+# fate 'full': all inputs, then on_completed;  'dispose' / 'error': k inputs, then dispose() of the subscription
+# / on_error from the source.  The LAST subscription is always 'full'.
+def stream_of(framing, items, rest, p=None, order=None):
+    if framing == 'line':
+        return ''.join(i + '\n' for i in items) + rest
+    return b''.join(len(bytes(i)).to_bytes(p, order) + bytes(i) for i in items) + bytes(rest)
+
+
+def mk_sub(framing, items, rest, chunks, fate='full', k=0):
+    if framing == 'line':
+        return {'items': list(items), 'tail': rest, 'chunks': list(chunks), 'fate': fate, 'k': k}
+    return {'items': [list(i) for i in items], 'partial': list(rest), 'chunks': [list(c) for c in chunks],
+            'fate': fate, 'k': k}
+
+
+def n_inputs(case, s):
+    return len(s['chunks'] if case['side'] == 'u' else s['items'])
+
+
+def resub_case(framing, p, order, side, share, source, sched, subs, iseed=0):
+    c = {'kind': 'resub', 'framing': framing, 'side': side, 'share': share, 'source': source, 'sched': sched,
+         'iseed': iseed, 'subs': subs}
+    if framing == 'lp':
+        c['p'], c['order'] = p, order
+    return c
+
+
+def gen_resub(rng):
+    framing = rng.choice(['line', 'lp'])
+    p, order = (rng.choice([1, 2, 4, 8]), rng.choice(['little', 'big'])) if framing == 'lp' else (None, None)
+    side = rng.choice(['u'] * 5 + ['f'])
+    share = rng.choice(['observable', 'observable', 'operator'])
+    source, sched = rng.choice([('defer', 'seq'), ('defer', 'seq'), ('defer', 'alt'), ('defer', 'inter'),
+                                ('defer', 'inter'), ('hot', 'seq'), ('hot', 'inter'), ('cold', 'seq')])
+    nsub = rng.choice([2, 2, 2, 3])
+    subs = []
+    for j in range(nsub):
+        g = gen_line(rng) if framing == 'line' else gen_lp(rng, p=p, order=order)
+        if j < nsub - 1 and not (g['items'] or g.get('tail') or g.get('partial')) and rng.random() < 0.8:
+            g = gen_line(rng) if framing == 'line' else gen_lp(rng, p=p, order=order)
+        subs.append({k: v for k, v in g.items() if k in ('items', 'tail', 'partial', 'chunks')})
+    if source == 'hot' and sched != 'seq':
+        subs = [dict(subs[-1]) for _ in subs]           # one stream, seen by every subscription alive
+    case = resub_case(framing, p, order, side, share, source, sched, subs, rng.randrange(10 ** 6))
+    for j, s in enumerate(subs):
+        if j == nsub - 1:
+            fates = ['full']
+        elif source == 'hot':
+            fates = ['dispose'] if sched == 'seq' else ['dispose', 'dispose', 'full']
+        else:
+            fates = ['full', 'dispose', 'dispose', 'error', 'error']
+        s['fate'] = rng.choice(fates)
+        n = n_inputs(case, s)
+        s['k'] = rng.choice([rng.randint(0, n), rng.randint(0, n), max(0, n - 1), min(1, n)])
+    return case
+
+
+def one_cuts(s):
+    return [[s[:c], s[c:]] for c in range(len(s) + 1)]
+
+
+def exhaustive_resub():
+    """framing x sharing x (source, order) x what happened to the FIRST subscription (ran to completion / disposed
+    / source error after every k of a fixed chunking that cuts frames, and after the first chunk of EVERY 1-cut
+    chunking); the second subscription is a complete stream of other items, cut inside its first frame.  With two
+    subscriptions alive at once and strictly alternating: every pair of 1-cut chunkings."""
+    out = []
+    for framing, p, order in [('line', None, None), ('lp', 1, 'little'), ('lp', 2, 'big')]:
+        if framing == 'line':
+            ia, ra, ib, rb = ['ab', '', 'c'], 'd', ['x', 'yz'], ''
+            sa, sb = stream_of(framing, ia, ra), stream_of(framing, ib, rb)
+            ca = [sa[:1], sa[1:5], sa[5:5], sa[5:7], sa[7:]]          # 'a' 'b\n\nc' '' '\nd' ''
+            cb = [sb[:3], sb[3:]]                                      # 'x\ny' 'z\n'
+        else:
+            ia, ib = [b'\x01\x02', b'', b'\x00'], [b'\x07', b'\x08\x09']
+            ra, rb = (3).to_bytes(p, order) + b'\x09', b''
+            sa, sb = stream_of(framing, ia, ra, p, order), stream_of(framing, ib, rb, p, order)
+            q = len(sa) // 2
+            ca = [sa[:1], sa[1:q], sa[q:q], sa[q:q + 1], sa[q + 1:]]
+            cb = [sb[:2 * p + 2], sb[2 * p + 2:]]                      # cut inside the second payload
+        second = lambda: mk_sub(framing, ib, rb, cb)
+        firsts = [('full', 0, ca)] + [(f, k, ca) for f in ('dispose', 'error') for k in range(len(ca) + 1)] + \
+                 [(f, 1, ch) for f in ('dispose', 'error') for ch in one_cuts(sa)]
+        for share in ('observable', 'operator'):
+            for source, sched in (('defer', 'seq'), ('defer', 'alt'), ('cold', 'seq'), ('hot', 'seq'), ('hot', 'inter')):
+                for fate, k, ch in firsts:
+                    if source == 'hot' and (fate == 'error' or (fate == 'full' and sched == 'seq')):
+                        continue                     # one Subject for all: it cannot end before the last lifetime
+                    a = mk_sub(framing, ia, ra, ch, fate, k)
+                    b = mk_sub(framing, ia, ra, ch) if (source, sched) == ('hot', 'inter') else second()
+                    out.append(resub_case(framing, p, order, 'u', share, source, sched, [a, b]))
+            for cha in one_cuts(sa):
+                for chb in one_cuts(sb):
+                    out.append(resub_case(framing, p, order, 'u', share, 'defer', 'alt',
+                                          [mk_sub(framing, ia, ra, cha), mk_sub(framing, ib, rb, chb)]))
+            # the frame() side: stateless, a small scope
+            for source, sched in (('defer', 'seq'), ('defer', 'alt'), ('cold', 'seq')):
+                for fate, k in (('full', 0), ('dispose', 1), ('error', 2)):
+                    out.append(resub_case(framing, p, order, 'f', share, source, sched,
+                                          [mk_sub(framing, ia, ra, ca, fate, k), second()]))
+    return out
+
+
+def resub_schedule(case):
+    """[(action, subscription index[, input index])]"""
+    subs = case['subs']
+    per = []
+    for i, s in enumerate(subs):
+        n = n_inputs(case, s)
+        n = n if s['fate'] == 'full' else min(n, s['k'])
+        end = {'full': 'complete', 'dispose': 'dispose', 'error': 'error'}[s['fate']]
+        if case['source'] == 'cold':       # the source itself emits the n inputs and the terminal event in subscribe()
+            per.append([('sub', i)] + ([('dispose', i)] if end == 'dispose' else []))
+        else:
+            per.append([('sub', i)] + [('push', i, j) for j in range(n)] + [(end, i)])
+    if case['sched'] == 'seq' or case['source'] == 'cold':
+        return [a for q in per for a in q]
+    if case['source'] == 'hot':
+        # all subscribe first; the one stream (that of the last subscription) flows to everyone alive; the earlier
+        # ones leave after their k chunks (fate dispose) or stay to the end (fate full)
+        last = len(subs) - 1
+        out = [('sub', i) for i in range(len(subs))]
+        left = set()
+
+        def leave(j):
+            for i, s in enumerate(subs[:-1]):
+                if s['fate'] != 'full' and i not in left and s['k'] <= j:
+                    left.add(i)
+                    out.append(('dispose', i))
+        leave(0)
+        for j in range(n_inputs(case, subs[-1])):
+            out.append(('push', last, j))
+            leave(j + 1)
+        leave(10 ** 9)
+        return out + [('complete', last)]
+    out = []
+    if case['sched'] == 'alt':
+        while any(per):
+            for q in per:
+                if q:
+                    out.append(q.pop(0))
+        return out
+    rng = random.Random(case['iseed'])
+    while any(per):
+        q = rng.choice([q for q in per if q])
+        out.append(q.pop(0))
+    return out
+
+
 def generate(rng, tier):
     n = {'quick': 500, 'thorough': 12000, 'search': 400}[tier]
     cases = []
@@ -109,15 +295,134 @@ def generate(rng, tier):
         r = rng.random()
         cases.append(gen_malformed(rng) if r < 0.12 else gen_line(rng, tier != 'quick') if r < 0.56
                      else gen_lp(rng, tier != 'quick'))
+    cases += [gen_resub(rng) for _ in range({'quick': 400, 'thorough': 8000, 'search': 150}[tier])]
     if tier != 'search':
         cases += exhaustive_cuts(rng, 2)
+        cases += exhaustive_resub()
     if tier == 'thorough':
         cases += exhaustive_cuts(rng, 3)
     return cases
 
 
+def ops_of(case):
+    """(make_unframe, make_frame, to_input, from_output) of a case"""
+    from rxsci.framing import line, length_prefix
+    if case.get('framing', case['kind']) == 'line':
+        return line.unframe, line.frame, (lambda x: x), (lambda x: x)
+    p, order = case['p'], case['order']
+    return ((lambda: length_prefix.unframe(p, order)), (lambda: length_prefix.frame(p, order)),
+            (lambda x: bytes(x)), (lambda b: list(b) if isinstance(b, (bytes, bytearray)) else repr(b)))
+
+
+def run_resub(case):
+    """ONE operator / ONE piped observable, subscribed once per entry of case['subs']; every subscription has its
+    own observer, its own inputs and (sources defer / cold) its own source lifetime"""
+    import rx
+    from rx.subject import Subject
+    mk_un, mk_fr, conv, back = ops_of(case)
+    side, source, subs = case['side'], case['source'], case['subs']
+    st = [{'inputs': [conv(x) for x in (s['chunks'] if side == 'u' else s['items'])], 'cur': [], 'at_sub': None,
+           'steps': [], 'final': [], 'extra': [], 'end': 'none', 'alive': False, 'subject': None, 'disp': None}
+          for s in subs]
+    pending, crosstalk = [], 0
+
+    def snap(e):
+        x = e['cur'][:]
+        del e['cur'][:]
+        return x
+
+    def observer_of(e):
+        def on_error(err):
+            if e['end'] == 'none':
+                e['end'] = 'error:' + type(err).__name__
+
+        def on_completed():
+            if e['end'] == 'none':
+                e['end'] = 'completed'
+        return dict(on_next=lambda x: e['cur'].append(back(x)), on_error=on_error, on_completed=on_completed)
+
+    def new_subject(*_):
+        subj = Subject()
+        st[pending[-1]]['subject'] = subj
+        return subj
+
+    def cold(observer, scheduler=None):
+        i = pending[-1]
+        e, s = st[i], subs[i]
+        e['at_sub'] = snap(e)                    # whatever the operator emitted before its source produced anything
+        n = len(e['inputs']) if s['fate'] == 'full' else min(len(e['inputs']), s['k'])
+        for x in e['inputs'][:n]:
+            observer.on_next(x)
+            e['steps'].append(snap(e))
+        if s['fate'] == 'error':
+            observer.on_error(RuntimeError('source failed'))
+        elif s['fate'] == 'full':
+            observer.on_completed()
+        e['final'] = snap(e)
+
+    hot = Subject() if source == 'hot' else None
+
+    def source_of():
+        return rx.defer(new_subject) if source == 'defer' else hot if source == 'hot' else rx.create(cold)
+
+    op = mk_un() if side == 'u' else mk_fr()                                     # the operator: built ONCE
+    piped = source_of().pipe(op) if case['share'] == 'observable' else None      # the piped observable: built ONCE
+    for act in resub_schedule(case):
+        what, i = act[0], act[1]
+        e = st[i]
+        audience = [e]
+        if what == 'sub':
+            pending.append(i)
+            o = piped if piped is not None else op(new_subject() if source == 'defer' else source_of())
+            e['alive'] = True
+            e['disp'] = o.subscribe(**observer_of(e))
+            if e['at_sub'] is None:
+                e['at_sub'] = snap(e)
+            else:
+                e['extra'] += snap(e)
+        elif what == 'dispose':
+            e['disp'].dispose()
+            e['alive'] = False
+            e['extra'] += snap(e)
+        else:
+            subj = hot if hot is not None else e['subject']
+            if hot is not None:
+                audience = [x for x in st if x['alive']]
+            if what == 'push':
+                subj.on_next(e['inputs'][act[2]])
+                for x in audience:
+                    x['steps'].append(snap(x))
+            else:
+                if what == 'complete':
+                    subj.on_completed()
+                else:
+                    subj.on_error(RuntimeError('source failed'))
+                for x in audience:
+                    x['final'] = snap(x)
+                    x['alive'] = False
+        for x in st:                         # events at a subscription that was not driven by this action
+            if x['cur'] and not any(x is y for y in audience):
+                crosstalk += 1
+                x['extra'] += snap(x)
+    res = []
+    for s, e in zip(subs, st):
+        shared = {'at_sub': e['at_sub'] or [], 'steps': e['steps'], 'final': e['final'], 'extra': e['extra'], 'end': e['end']}
+        # the other direction through a FRESH operator (plain, complete run), so that every subscription is a whole
+        # round trip and the Coq model can be evaluated on it
+        if side == 'u':
+            f = run_timed(mk_fr(), [conv(x) for x in s['items']])
+        else:
+            f = run_timed(mk_un(), [conv(x) for x in s['chunks']])
+        fresh = {'at_sub': [back(x) for x in f['sub']], 'steps': [[back(x) for x in q] for q in f['steps']],
+                 'final': [back(x) for x in f['final']], 'extra': [], 'end': f['end']}
+        res.append({'fate': s['fate'], 'shared': shared, 'fresh': fresh})
+    return {'subs': res, 'crosstalk': crosstalk}
+
+
 def run_impl(case):
     from rxsci.framing import line, length_prefix
+    if case['kind'] == 'resub':
+        return run_resub(case)
     if case['kind'] == 'line':
         r = run_timed(line.unframe(), case['chunks'])
         fr = run_timed(line.frame(), case['items'] or [])
@@ -129,14 +434,11 @@ def run_impl(case):
             'end': r['end'], 'framed': [list(b) for b in sum(fr['steps'], [])]}
 
 
-def oracle(case, obs):
-    """C15 itself, no model: unframing any re-chunking of the framed items gives back the items."""
-    if case['items'] is None:
-        return None
-    if 'raised' in obs:
-        return {'sig': 'framing:raised', 'what': 'framing raised %s' % obs['raised']}
+def oracle_stream(kind, case, obs):
+    """C15 itself, no model: unframing any re-chunking of the framed items gives back the items.
+    `case` has items / tail | partial / chunks, `obs` has steps / final / end / framed."""
     got = sum(obs['steps'], []) + obs['final']
-    if case['kind'] == 'line':
+    if kind == 'line':
         want = list(case['items']) + ([case['tail']] if case['tail'] else [])
         if ''.join(obs['framed']) + case['tail'] != ''.join(case['chunks']):
             return {'sig': 'line:frame', 'what': 'frame() output is not item+newline'}
@@ -150,18 +452,124 @@ def oracle(case, obs):
         if sum(obs['framed'], []) + case['partial'] != sum(case['chunks'], []):
             return {'sig': 'lp:frame', 'what': 'frame() output is not prefix+payload'}
     if got != want or obs['end'] != 'completed':
-        return {'sig': case['kind'] + ':roundtrip', 'what': 'unframe(rechunk(frame(items))) != items: got %r want %r end=%s'
+        return {'sig': kind + ':roundtrip', 'what': 'unframe(rechunk(frame(items))) != items: got %r want %r end=%s'
                 % (got[:6], want[:6], obs['end'])}
     return None
 
 
+def flat(o):
+    """everything a subscription received, in order"""
+    return o['at_sub'] + sum(o['steps'], []) + o['final'] + o['extra']
+
+
+def is_prefix(a, b):
+    return len(a) <= len(b) and list(b[:len(a)]) == list(a)
+
+
+def oracle_resub(case, obs):
+    """every subscription of the one operator / piped observable is a stream in its own right: driven to completion
+    it delivers exactly ITS items (as a fresh operator would), cut short it delivers a prefix of ITS items; never
+    anything of another subscription"""
+    kind, side = case['framing'], case['side']
+    if 'raised' in obs:
+        return {'sig': kind + ':resub:raised', 'what': 'framing raised %s to the caller: %s' % (obs['raised'], obs.get('msg'))}
+    fates = [s['fate'] + ('' if s['fate'] == 'full' else '@%d' % s['k']) for s in case['subs']]
+    for j, (s, o) in enumerate(zip(case['subs'], obs['subs'])):
+        where = '%s.%s, one %s over a %s source subscribed %d times (%s; fates %s), subscription #%d: ' % (
+            'line' if kind == 'line' else 'length_prefix(%d,%s)' % (case['p'], case['order']),
+            'unframe' if side == 'u' else 'frame', case['share'], case['source'], len(fates),
+            {'seq': 'one after the other', 'alt': 'alive at once, alternating',
+             'inter': 'alive at once, interleaved'}[case['sched']], fates, j + 1)
+        un, fr = (o['shared'], o['fresh']) if side == 'u' else (o['fresh'], o['shared'])
+        rest = s['tail'] if kind == 'line' else s['partial']
+        whole = ''.join(s['chunks']) if kind == 'line' else sum(s['chunks'], [])
+        framed_all = flat(fr)
+        framed = ''.join(framed_all) if kind == 'line' else sum(framed_all, [])
+        if s['fate'] == 'full' or side == 'u':
+            # both directions ran to completion (the cut-short one, if any, is the unframe side): the plain oracle
+            # on the unframe output when it is complete, else the prefix rule below
+            if s['fate'] == 'full':
+                if un['at_sub'] or un['extra']:
+                    return {'sig': kind + ':resub:roundtrip', 'what': where + 'items delivered outside its own lifetime: %r'
+                            % (un['at_sub'] + un['extra'])[:6]}
+                f = oracle_stream(kind, s, {'steps': un['steps'], 'final': un['final'], 'end': un['end'],
+                                            'framed': framed_all})
+                if f:
+                    return {'sig': f['sig'].replace(':', ':resub:', 1), 'what': where + f['what']}
+                continue
+            if framed + rest != whole:
+                return {'sig': kind + ':resub:frame', 'what': where + 'a fresh frame() did not give item framing'}
+            if not is_prefix(flat(un), s['items']):
+                return {'sig': kind + ':resub:foreign-data', 'what': where + 'received %r, not a prefix of its items %r'
+                        % (flat(un)[:6], s['items'][:6])}
+        else:
+            # frame side cut short: what it emitted is the beginning of the framing of its items; the fresh unframe
+            # of its chunks is a plain complete run
+            if not is_prefix(framed, whole[:len(whole) - len(rest)]):
+                return {'sig': kind + ':resub:frame', 'what': where + 'frame() output is not a prefix of the framing of its items'}
+            if flat(un) != list(s['items']) + ([rest] if kind == 'line' and rest else []) or un['end'] != 'completed':
+                return {'sig': kind + ':resub:roundtrip', 'what': where + 'a fresh unframe of its chunks != its items'}
+    if obs['crosstalk']:
+        return {'sig': kind + ':resub:crosstalk', 'what': 'a subscription received items while another one was driven (%d times)'
+                % obs['crosstalk']}
+    return None
+
+
+def oracle(case, obs):
+    if case['kind'] == 'resub':
+        return oracle_resub(case, obs)
+    if case['items'] is None:
+        return None
+    if 'raised' in obs:
+        return {'sig': 'framing:raised', 'what': 'framing raised %s' % obs['raised']}
+    return oracle_stream(case['kind'], case, obs)
+
+
+def ended_inside_a_frame(case, s):
+    """did a subscription that was cut short (unframe side) stop with a fragment of a frame in the buffer?"""
+    if s['fate'] == 'full' or case['side'] != 'u':
+        return False
+    k = min(s['k'], len(s['chunks']))
+    if case['framing'] == 'line':
+        return not ''.join(s['chunks'][:k]).endswith('\n') and k > 0 and ''.join(s['chunks'][:k]) != ''
+    n, ends, pos = len(sum(s['chunks'][:k], [])), {0}, 0
+    for i in s['items']:
+        pos += case['p'] + len(i)
+        ends.add(pos)
+    return n not in ends
+
+
 def nontrivial(case, obs):
+    if case['kind'] == 'resub':
+        # a later subscription that is a real stream (>= 1 item, >= 2 chunks) and runs to completion
+        return any(s['fate'] == 'full' and len(s['items']) >= 1 and len(s['chunks']) >= 2 for s in case['subs'][1:])
     return case['items'] is not None and len(case['items']) >= 2 and len(case['chunks']) >= 2
 
 
 def describe(cases, obs):
-    d = {'line': 0, 'lp': 0, 'malformed': 0, 'empty_chunks': 0, 'max_chunks': 0, 'prefix_sizes': {}, 'with_tail_or_partial': 0}
+    d = {'line': 0, 'lp': 0, 'malformed': 0, 'empty_chunks': 0, 'max_chunks': 0, 'prefix_sizes': {}, 'with_tail_or_partial': 0,
+         'resub': 0, 'resub_subscriptions': 0, 'resub_framing_x_side': {}, 'resub_sharing_x_source_x_order': {},
+         'resub_fate_of_earlier_subscriptions': {}, 'resub_earlier_subscription_ended_inside_a_frame': 0,
+         'resub_two_or_more_alive_at_once': 0}
+
+    def inc(key, k):
+        d[key][k] = d[key].get(k, 0) + 1
     for c in cases:
+        if c['kind'] == 'resub':
+            d['resub'] += 1
+            d['resub_subscriptions'] += len(c['subs'])
+            inc('resub_framing_x_side', '%s.%s' % (c['framing'], 'unframe' if c['side'] == 'u' else 'frame'))
+            inc('resub_sharing_x_source_x_order', '%s/%s/%s' % (c['share'], c['source'], c['sched']))
+            for s in c['subs'][:-1]:
+                inc('resub_fate_of_earlier_subscriptions', s['fate'])
+            d['resub_earlier_subscription_ended_inside_a_frame'] += any(ended_inside_a_frame(c, s) for s in c['subs'][:-1])
+            d['resub_two_or_more_alive_at_once'] += c['sched'] != 'seq' and c['source'] != 'cold'
+            if c['framing'] == 'lp':
+                d['prefix_sizes'][str(c['p'])] = d['prefix_sizes'].get(str(c['p']), 0) + 1
+            for s in c['subs']:
+                d['empty_chunks'] += sum(1 for ch in s['chunks'] if len(ch) == 0)
+                d['max_chunks'] = max(d['max_chunks'], len(s['chunks']))
+            continue
         if c['items'] is None:
             d['malformed'] += 1
         d[c['kind']] += 1
@@ -187,28 +595,71 @@ def zs(s):
     return c_zlist([ord(c) for c in s])
 
 
+def c_line(items, framed, chunks, out, completed):
+    return 'CLine %s %s %s %s %s' % (
+        c_list([zs(i) for i in items]), c_list([zs(i) for i in framed]), c_list([zs(c) for c in chunks]),
+        c_list([c_list([zs(l) for l in st]) for st in out]), c_bool(completed))
+
+
+def c_lp(p, order, items, framed, chunks, out, completed):
+    return 'CLp %s %s %s %s %s %s %s' % (
+        c_nat(p), c_bool(order == 'big'), c_list([c_nlist(i) for i in items]), c_list([c_nlist(i) for i in framed]),
+        c_list([c_nlist(c) for c in chunks]), c_list([c_list([c_nlist(l) for l in st]) for st in out]),
+        c_bool(completed))
+
+
+def the_sub(case):
+    """which subscription of a resub case goes through the Coq model: one that is driven to completion (the last
+    one always is), chosen by the case alone"""
+    full = [j for j, s in enumerate(case['subs']) if s['fate'] == 'full']
+    return full[case['iseed'] % len(full)]
+
+
 def coq_term(case, obs):
     if 'raised' in obs:
         return 'CRaised'
+    if case['kind'] == 'resub':
+        # a completed subscription is a plain stream: its chunks, what it received per chunk and at completion
+        j = the_sub(case)
+        s, o = case['subs'][j], obs['subs'][j]
+        un, fr = (o['shared'], o['fresh']) if case['side'] == 'u' else (o['fresh'], o['shared'])
+        if un['at_sub'] or un['extra'] or fr['at_sub'] or fr['extra'] or fr['final']:
+            return 'CRaised'                  # the model emits nothing outside the pushes / the completion
+        try:
+            framed, out, done = sum(fr['steps'], []), un['steps'] + [un['final']], un['end'] == 'completed'
+            if case['framing'] == 'line':
+                return c_line(s['items'], framed, s['chunks'], out, done)
+            return c_lp(case['p'], case['order'], s['items'], framed, s['chunks'], out, done)
+        except Exception:                     # something that is not text / bytes was delivered
+            return 'CRaised'
     if case['kind'] == 'line':
-        return 'CLine %s %s %s %s %s' % (
-            c_list([zs(i) for i in case['items'] or []]), c_list([zs(i) for i in obs['framed']]),
-            c_list([zs(c) for c in case['chunks']]),
-            c_list([c_list([zs(l) for l in st]) for st in obs['steps'] + [obs['final']]]),
-            c_bool(obs['end'] == 'completed'))
-    return 'CLp %s %s %s %s %s %s %s' % (
-        c_nat(case['p']), c_bool(case['order'] == 'big'),
-        c_list([c_nlist(i) for i in case['items'] or []]), c_list([c_nlist(i) for i in obs['framed']]),
-        c_list([c_nlist(c) for c in case['chunks']]),
-        c_list([c_list([c_nlist(l) for l in st]) for st in obs['steps'] + [obs['final']]]),
-        c_bool(obs['end'] == 'completed'))
+        return c_line(case['items'] or [], obs['framed'], case['chunks'], obs['steps'] + [obs['final']],
+                      obs['end'] == 'completed')
+    return c_lp(case['p'], case['order'], case['items'] or [], obs['framed'], case['chunks'],
+                obs['steps'] + [obs['final']], obs['end'] == 'completed')
 
 
 def coq_model_expr(case):
-    if case['kind'] == 'line':
-        return 'z_unframe %s' % c_list([zs(c) for c in case['chunks']])
+    kind = case['kind']
+    if kind == 'resub':
+        kind, chunks = case['framing'], case['subs'][the_sub(case)]['chunks']
+    else:
+        chunks = case['chunks']
+    if kind == 'line':
+        return 'z_unframe %s' % c_list([zs(c) for c in chunks])
     return 'n_unframe %s %s %s' % (c_nat(case['p']), c_bool(case['order'] == 'big'),
-                                   c_list([c_nlist(c) for c in case['chunks']]))
+                                   c_list([c_nlist(c) for c in chunks]))
+
+
+def neighbours(case, rng):
+    """search stage: around a disagreeing re-subscription case, more of the same framing and sharing"""
+    out = []
+    if case['kind'] == 'resub':
+        for _ in range(200):
+            c = gen_resub(rng)
+            if c['framing'] == case['framing'] and c['share'] == case['share']:
+                out.append(c)
+    return out
 
 
 CLAIM = {
@@ -217,9 +668,19 @@ CLAIM = {
             'length-prefix unframe(rechunk(frame(items))) = items; trailing unterminated line delivered at '
             'completion; strict prefix of a frame never delivered; per-chunk promptness. The model is tied to '
             'rxsci/framing/*.py by evaluating it in Coq on the chunk sequences the implementation was run on '
-            '(per-chunk outputs compared), including all 2-cut (thorough: 3-cut) placements of short streams.',
+            '(per-chunk outputs compared), including all 2-cut (thorough: 3-cut) placements of short streams. '
+            'The theorems speak about ONE subscription. That each subscription of one unframe()/frame() operator '
+            'or one piped observable is such a stream of its own (no carry-over shared between subscriptions) is '
+            'TESTED, not proved: re-subscription cases build the operator / piped observable once and subscribe it '
+            '2-3 times (sequential, alternating, interleaved; earlier lifetimes completed, disposed or ended by a '
+            'source error after k chunks, k also inside a frame; rx.defer, hot Subject and synchronous rx.create '
+            'sources), with a model-free oracle per subscription (exactly its own items when driven to completion, '
+            'a prefix of them when cut short, nothing of another subscription), an exhaustive small scope, and the '
+            'Coq model evaluated on one completed subscription per case.',
     'note': 'Trusted: Coq kernel+VM; hand-written model of line.py/length_prefix.py (tied by correspondence only); '
             'Python str.split/join, int.to_bytes/from_bytes, io.BytesIO and RxPY synchronous delivery are '
-            'modelled, not verified.',
-    'technique': 'Coq proof (induction over chunk list with carry-over invariant; generic incremental parser) + vm_compute correspondence',
+            'modelled, not verified. Independence of the subscriptions of one operator is outside the Coq model '
+            '(tested by the re-subscription family only).',
+    'technique': 'Coq proof (induction over chunk list with carry-over invariant; generic incremental parser) + vm_compute correspondence '
+                 '+ model-free re-subscription testing (exhaustive small scope and random)',
 }
